@@ -33,6 +33,9 @@ type Connection struct {
 	// Buffers encrypted bytes read from the connection across reads
 	buffered *bufio.Reader
 
+	// Error of the packet which could not be decrypted; nothing is read after that
+	readErr error
+
 	// Serializes encrypt-and-write, so that frames are written in the order of their nonces
 	writeMutex sync.Mutex
 
@@ -156,6 +159,10 @@ func (con *Connection) encryptedWrite(encrypter crypto.Encrypter, b []byte) (int
 // DecryptedRead reads and decrypts bytes from the connection.
 // The method returns the number of read bytes and an error when reading failed.
 func (con *Connection) DecryptedRead(b []byte) (int, error) {
+	if con.readErr != nil {
+		return 0, con.readErr
+	}
+
 	// Decrypt the next packet when all decrypted bytes are consumed; packets without data are skipped
 	for con.readBuffer == nil || con.readBuffer.Len() == 0 {
 		if con.buffered == nil {
@@ -189,7 +196,8 @@ func (con *Connection) DecryptedRead(b []byte) (int, error) {
 		decrypted, err := decrypter.Decrypt(io.LimitReader(con.buffered, int64(size)))
 		if err != nil {
 			log.Debug.Println("Decryption failed:", err)
-			err = con.connection.Close()
+			con.connection.Close()
+			con.readErr = err
 			return 0, err
 		}
 
